@@ -90,7 +90,7 @@ func c20GenOp(t *rapid.T) c20Op {
 	kinds := []struct {
 		name string
 		w    int
-	}{{"set", 30}, {"del", 10}, {"batch", 12}, {"get", 12}, {"iter", 5}, {"iterp", 10}, {"iterps", 18}, {"iterps_rev", 3}, {"setsync", 1}, {"delsync", 1}}
+	}{{"set", 30}, {"del", 10}, {"batch", 12}, {"rebatch", 6}, {"get", 12}, {"iter", 5}, {"iterp", 10}, {"iterps", 18}, {"iterps_rev", 3}, {"setsync", 1}, {"delsync", 1}}
 	total := 0
 	for _, k := range kinds {
 		total += k.w
@@ -111,7 +111,7 @@ func c20GenOp(t *rapid.T) c20Op {
 		op.V = c20GenValue(t)
 	case "del", "delsync", "get":
 		op.K = hex.EncodeToString(c20GenBytes(t, 1, 3, "k"))
-	case "batch":
+	case "batch", "rebatch":
 		op.Batch = rapid.SliceOfN(rapid.Custom(func(t *rapid.T) c20KV {
 			kv := c20KV{K: hex.EncodeToString(c20GenBytes(t, 1, 3, "k"))}
 			if uni(t, 3, "bdel") == 1 {
@@ -295,6 +295,8 @@ func c20Exec(c c20Case, x *pbt.Ctx) error {
 		name string
 		db   dbm.DB
 	}{{"memdb", mem}, {"goleveldb", ldb}}
+	var lastBatches []dbm.Batch // the batch objects written last, one per backend
+	var lastOps []c20KV         // everything queued on them so far
 
 	// judge compares what the two backends showed with each other and with the model.
 	judge := func(i int, what string, got [2]c20Seen, errs [2]error, want c20Seen) error {
@@ -384,14 +386,25 @@ func c20Exec(c c20Case, x *pbt.Ctx) error {
 			if err := checkAll(i, "full iteration after "+op.Op); err != nil {
 				return err
 			}
-		case "batch":
+		case "batch", "rebatch":
 			for _, kv := range op.Batch {
 				if len(c20Unhex(kv.K)) == 0 {
 					return nil
 				}
 			}
-			for _, be := range backends {
-				batch := be.db.NewBatch()
+			// "rebatch": the batch object written last gets more operations queued and is written
+			// again; a batch keeps what was queued on it, so the whole list is applied once more
+			again := op.Op == "rebatch" && lastBatches != nil
+			if !again {
+				lastBatches, lastOps = nil, nil
+				for _, be := range backends {
+					lastBatches = append(lastBatches, be.db.NewBatch())
+				}
+			} else {
+				x.Class("batch-written-again")
+			}
+			lastOps = append(lastOps, op.Batch...)
+			for _, batch := range lastBatches {
 				for _, kv := range op.Batch {
 					if kv.Del {
 						batch.Delete(c20Unhex(kv.K))
@@ -401,7 +414,7 @@ func c20Exec(c c20Case, x *pbt.Ctx) error {
 				}
 				batch.Write()
 			}
-			for _, kv := range op.Batch {
+			for _, kv := range lastOps {
 				if kv.Del {
 					if _, ok := model[string(c20Unhex(kv.K))]; ok {
 						x.Class("batch-delete-existing")
